@@ -514,8 +514,15 @@ class MgmComputation(VariableComputation):
             if self.logger.isEnabledFor(logging.DEBUG):
                 self.logger.debug(f"Has all gains {self._gain}, {gains}")
             # determine if can change value and send ok message to neighbors
-            max_neighbors = max([gain for gain, _ in gains.values()])
-            if self._gain > max_neighbors:
+            # The gain is current_cost - best_cost : the best gain is the biggest
+            # one when minimizing and the smallest one when maximizing.
+            if self._mode == "min":
+                max_neighbors = max([gain for gain, _ in gains.values()])
+                is_best = self._gain > max_neighbors
+            else:
+                max_neighbors = min([gain for gain, _ in gains.values()])
+                is_best = self._gain < max_neighbors
+            if is_best:
                 if self.logger.isEnabledFor(logging.INFO):
                     self.logger.info(
                         f"Selects new value {self._new_value}, "
